@@ -117,6 +117,8 @@ def engine_scenario(sh: Shard, seed, idx):
         s.run_until(lambda: not sock._send_handlers, 5)
         base = len(sock._socket.sent)
         queued = []
+        dests = [peer.addr, peer.addr, ("10.0.0.77", 10022), ("10.0.0.78", 23456)]
+        shared = Msg(b"SHARED")
         for k in range(r.randrange(2, 40)):
             b = b"M%d" % k
             if r.random() < 0.12:
@@ -126,8 +128,15 @@ def engine_scenario(sh: Shard, seed, idx):
                 else:
                     sock.queue_send(Msg(b"never"), None)
                 sh.count("raising_sends_queued")
-            sock.queue_send(Msg(b), peer.addr)
-            queued.append(b)
+            dest = r.choice(dests)
+            if r.random() < 0.25:
+                # one long-lived handler object queued again and again, for varying destinations
+                # (as the simulator answers every discovery with its one hello handler)
+                sock.queue_send(shared, dest)
+                queued.append((b"SHARED", dest))
+                sh.count("sends_of_a_reused_handler")
+            sock.queue_send(Msg(b), dest)
+            queued.append((b, dest))
             if r.random() < 0.3:
                 s.sleep(r.choice([0.001, 0.015, 0.03, 0.2]))
             if r.random() < 0.3:
@@ -141,8 +150,10 @@ def engine_scenario(sh: Shard, seed, idx):
         out = sock._socket.sent[base:]
         sh.evaluations += 1
         wit = {"scenario": label, "queued": len(queued), "sent": len(out)}
-        if [d for _, d, _ in out] != queued:
-            sh.violation("C20:send-order", f"queued sends left as {[d for _, d, _ in out][:8]}..., queue order was {queued[:8]}...", wit)
+        if [(d, tuple(a)) for _, d, a in out] != queued:
+            left = [(d, tuple(a)) for _, d, a in out]
+            k = next((i for i, (x, y) in enumerate(zip(left, queued)) if x != y), min(len(left), len(queued)))
+            sh.violation("C20:send-order", f"queued (datagram, destination) pairs left the engine as ...{left[max(0, k - 1):k + 3]}, queue order was ...{queued[max(0, k - 1):k + 3]}", wit)
         else:
             sh.count("fifo_batches_matched")
         gaps = [b[0] - a[0] for a, b in zip(out, out[1:])]
